@@ -222,3 +222,105 @@ def bec2_read(chk, es, b):
 def bec2_readtext(chk, es, t):
     f = Bec2File.read_file(io.StringIO(b3.parse_str(t)), parse_encs(es), chk == "1")
     return "ok " + b3.show_comments(f.bf3file.comments) + " " + show_file(f)
+
+
+# ------------------------------------------------------------------ direct property evaluation
+import refaes
+from refaes import bitserial
+
+
+def frame_check(key, payload, ct):
+    """independent check of the container frame (C08): returns None or a description"""
+    if len(ct) % 16 or not ct:
+        return f"ciphertext length {len(ct)} is not a positive multiple of 16"
+    fr = refaes.cbc_decrypt(key, bytes(16), ct)
+    if fr[0:1] != b"B":
+        return "frame does not start with 'B'"
+    if fr[1] != len(payload) + 2:
+        return f"length byte {fr[1]} != payload length + 2 = {len(payload) + 2}"
+    z = len(fr) - 2 - len(payload) - 2
+    if not 1 <= z <= 16:
+        return f"{z} padding bytes (must be 1..16)"
+    if fr[2:2 + z] != bytes(z):
+        return "padding bytes are not zero"
+    if fr[2 + z:2 + z + len(payload)] != payload:
+        return "payload bytes differ"
+    if fr[-2:] != bitserial(payload).to_bytes(2, "big"):
+        return "CRC-16 differs from the bit-serial CRC of the payload"
+    return None
+
+
+@op("prop.c08")
+def prop_c08(k, d):
+    key, p = unhx(k), unhx(d)
+    enc = AesEncryptorMixin(key)
+    try:
+        ct = enc.encrypt(p)
+    except OverflowError:
+        return "ok overflow" if len(p) > 253 else f"FAIL writer raises OverflowError for a {len(p)}-byte payload"
+    except Exception as e:
+        return f"FAIL wrap raises {type(e).__name__}: {e}"
+    if len(p) > 253:
+        return f"FAIL a {len(p)}-byte payload was wrapped (length byte cannot hold it)"
+    bad = frame_check(key, p, ct)
+    if bad:
+        return "FAIL frame: " + bad
+    try:
+        back = AesEncryptorMixin(key).decrypt(ct)
+    except Exception as e:
+        return f"FAIL unwrap of the wrapper's own output raises {type(e).__name__}: {e}"
+    if back != p:
+        return f"FAIL unwrap returns {back.hex()} instead of the payload"
+    # under another key: must be an error (holds up to 2^-24; search-only clause)
+    other = bytes([key[0] ^ 1]) + key[1:]
+    try:
+        got = AesEncryptorMixin(other).decrypt(ct)
+        return f"FAIL frame made under another key unwraps to {got.hex()[:40]}"
+    except Exception:
+        pass
+    return "ok"
+
+
+@op("prop.c08bad")
+def prop_c08bad(k, f):
+    """a hand-made frame with a wrong marker or a wrong CRC must be reported as an error"""
+    key, fr = unhx(k), unhx(f)
+    ct = refaes.cbc_encrypt(key, bytes(16), fr)
+    try:
+        got = AesEncryptorMixin(key).decrypt(ct)
+    except Exception as e:
+        return "ok " + type(e).__name__
+    return f"FAIL invalid frame {fr.hex()} accepted, payload {got.hex()}"
+
+
+@op("prop.c08ck")
+def prop_c08ck(k, ck, pos, d):
+    key, c, pos, p = unhx(k), unhx(ck), int(pos), unhx(d)
+    e = SoftwareCustKeyEncryptor(key, c, pos)
+    ct = e.encrypt(p)
+    fr = refaes.cbc_decrypt(key, bytes(16), ct)
+    inner = fr[len(fr) - 2 - len(p):-2]
+    want = p[:pos] + c + p[pos + 10:]
+    if inner != want:
+        return f"FAIL wrapped plaintext {inner.hex()} != payload with the customer key in its slot {want.hex()}"
+    back = SoftwareCustKeyEncryptor(key, c, pos).decrypt(ct)
+    if back != p[:pos] + bytes(10) + p[pos + 10:]:
+        return f"FAIL unwrap returns {back.hex()} (slot not blanked or payload changed)"
+    other = bytes([c[0] ^ 0x55]) + c[1:]
+    try:
+        SoftwareCustKeyEncryptor(key, other, pos).decrypt(ct)
+        return "FAIL a different customer key is accepted"
+    except bec2.Bec2FileFormatError:
+        pass
+    return "ok"
+
+
+@op("prop.csc")
+def prop_csc(c):
+    code = unhx(c)
+    e = ConfigSecurityCodeEncryptor(code)
+    want = sha256(code).digest()[:16]
+    ct = e.encrypt(b"0123456789abcdef\x05")
+    if frame_check(want, b"0123456789abcdef\x05", ct):
+        return "FAIL security-code container is not keyed with SHA-256(code)[:16]: " + frame_check(want, b"0123456789abcdef\x05", ct)
+    return "ok"
